@@ -101,11 +101,16 @@ def tables_close(a, b, tol_of):
             tol = tol_of(r, c)
             if tol is None:  # only the NaN pattern of this pixel is compared
                 continue
-            for x, y in zip(va, vb):
+            tols = tol if isinstance(tol, list) else [tol] * len(va)
+            if len(tols) != len(va):
+                return False
+            for x, y, t in zip(va, vb, tols):
+                if t is None:  # an undetermined element: not compared
+                    continue
                 if x is None or y is None:
                     if x is not y:
                         return False
-                elif x != y and abs(F(x) - F(y)) > tol:
+                elif x != y and abs(F(x) - F(y)) > t:
                     return False
     return True
 
@@ -120,6 +125,77 @@ def same_pattern(a, b):
     if isinstance(a, dict) or isinstance(b, dict) or len(a) != len(b):
         return False
     return all(len(ra) == len(rb) and all((pa is None) == (pb is None) for pa, pb in zip(ra, rb)) for ra, rb in zip(a, b))
+
+
+INT_MT = ("pyint", "np-i8", "list-int", "tuple-int", "i4", "i8")
+F4_MT = ("np-f4", "f4")
+SCALAR_MT = ("pyfloat", "pyint", "np-f8", "np-f4", "np-i8", "0d-f8")
+SEQ_MT = ("list", "list-int", "list-mixed", "tuple", "tuple-int", "f8", "f8-strided", "f4", "i4", "i8")
+WTYPES = ("float", "int", "np-f8", "np-f4")
+
+
+def exact_of(x):
+    """the exact value of a number as it is passed to pewlib"""
+    return F(int(x)) if isinstance(x, (int, np.integer)) else F(float(x))
+
+
+def build_target(masses, mt):
+    """the object handed to extract_masses as `target_masses` for the argument type `mt`, and the exact values of its
+    elements: an int type passes int(m), a float32 type the float32 nearest to m - the target masses of the call ARE
+    these values, and they are what the model is given"""
+    if mt in SCALAR_MT:
+        m = masses[0]
+        obj = {"pyfloat": lambda: float(m), "pyint": lambda: int(m), "np-f8": lambda: np.float64(m),
+               "np-f4": lambda: np.float32(m), "np-i8": lambda: np.int64(int(m)), "0d-f8": lambda: np.array(float(m))}[mt]()
+        return obj, [exact_of(obj if mt != "0d-f8" else obj[()])]
+    if mt in ("list-int", "tuple-int"):
+        seq = [int(m) for m in masses]
+        return (seq if mt == "list-int" else tuple(seq)), [F(v) for v in seq]
+    if mt == "list-mixed":
+        seq = [int(masses[0])] + [float(m) for m in masses[1:]]
+        return seq, [exact_of(v) for v in seq]
+    if mt == "tuple":
+        seq = tuple(float(m) for m in masses)
+        return seq, [F(v) for v in seq]
+    if mt in ("f8", "f4", "i4", "i8"):
+        if mt[0] == "i":
+            arr = np.array([int(m) for m in masses], dtype={"i4": np.int32, "i8": np.int64}[mt])
+        else:
+            arr = np.array([float(m) for m in masses], dtype={"f8": np.float64, "f4": np.float32}[mt])
+        return arr, [exact_of(v) for v in arr]
+    if mt == "f8-strided":  # a view with a stride of two elements
+        arr = np.repeat(np.array([float(m) for m in masses], dtype=np.float64), 2)[::2]
+        return arr, [exact_of(v) for v in arr]
+    seq = [float(m) for m in masses]  # "list"
+    return seq, [F(v) for v in seq]
+
+
+def build_width(value, wt):
+    obj = {"float": lambda: float(value), "int": lambda: int(value), "np-f8": lambda: np.float64(value),
+           "np-f4": lambda: np.float32(value)}.get(wt, lambda: float(value))()
+    return obj, exact_of(obj)
+
+
+def f32_exact(q):
+    with np.errstate(over="ignore"):
+        v = np.float32(float(q))
+    return bool(np.isfinite(v)) and F(float(v)) == q
+
+
+def edge_guard(real, wkind, mvals, wval, mt, wt, edges):
+    """None when the float window edges the code computes ARE the exact edges m -/+ w/2; else the relative distance
+    within which a peak next to an edge makes the element undetermined (1e-9 for float64 arithmetic, 1e-6 when the
+    targets or the width are float32, which makes NumPy compute the edges in float32)"""
+    f4 = mt in F4_MT or wt == "np-f4"
+    rel = F(1, 10 ** 6) if f4 else F(1, 10 ** 9)
+    if real or wkind == "ppm":
+        # m*ppm/1e6/2 and e.g. m*(ppm*5e-7) are both right but round differently
+        return rel
+    if f4:
+        return None if all(f32_exact(x) for x in [wval / 2] + list(edges) + list(mvals)) else rel
+    h = float(wval) / 2.0
+    fl = [F(v) for m in mvals for v in (float(m) - h, float(m) + h)]
+    return None if fl == list(edges) else rel
 
 
 class C05(Prop):
@@ -516,8 +592,95 @@ class C05(Prop):
                          rd(70, 0, "f8", past="empty-read"), rd(16, 31, "f8"), rd(16, 30, "f4"), rd(0, 64, "u8"), rd(61, 9, "u2", past="across-end")]}
 
     # ------------------------------------------------------------------ evaluation
+    @staticmethod
+    def targ_of(case):
+        """argument types of the main extraction; cases written before the argument-type class have none: the types
+        the harness used then (a Python float, a float64 ndarray or a list of floats; a Python float width)"""
+        t = case.get("targ")
+        if t:
+            return t.get("mt", "list"), t.get("wt", "float")
+        if case.get("scalar"):
+            return "pyfloat", "float"
+        return ("f8" if case.get("style", 0) % 2 else "list"), "float"
+
+    def call_list(self, case):
+        """the calls made on ONE ImzML object, in order: (key, descriptor).  `extract`, `tic`, `range`, `binned` are the
+        four observation points of the property; `x<i>` are further calls of the same methods (other targets / widths /
+        argument types, repeated calls, `load`) - a history: nothing a call leaves behind may change a later result"""
+        calls = [("extract", {"op": "extract", "main": True}), ("tic", {"op": "tic"}), ("range", {"op": "range"})]
+        if case.get("binw") is not None:
+            calls.append(("binned", {"op": "bins", "w": case["binw"]}))
+        for i, x in enumerate(case.get("extra") or []):
+            calls.append((f"x{i}", x))
+        if case.get("order") is not None:
+            import random
+            random.Random(case["order"]).shuffle(calls)
+        return calls
+
+    def call_args(self, case, c):
+        """an extraction-like call: (target object, width argument(s), exact target values, (kind, exact width), mt, wt)"""
+        op = c["op"]
+        if op == "again" or c.get("main"):
+            masses, width = case["masses"], case["width"]
+            mt, wt = self.targ_of(case)
+        else:
+            masses, width = c["masses"], c.get("width")
+            t = c.get("targ") or {}
+            mt, wt = t.get("mt", "list"), t.get("wt", "float")
+        obj, mvals = build_target(masses, mt)
+        if op == "load":
+            if c.get("ppm") is None:
+                return obj, None, mvals, ("ppm", F(10)), mt, "float"
+            wobj, wval = build_width(c["ppm"], wt)
+            return obj, wobj, mvals, ("ppm", wval), mt, wt
+        wobj, wval = build_width(width["value"], wt)
+        kw = {"mass_width_ppm": wobj} if width["kind"] == "ppm" else {"mass_width_mz": wobj}
+        return obj, kw, mvals, (width["kind"], wval), mt, wt
+
+    def observe(self, case, path, fast):
+        """everything the property observes, through one parser, on one object, in the order of the history"""
+        from pewlib.io import imzml as M
+
+        try:
+            imz = M.ImzML.from_file(path, use_fast_parse=True) if fast else M.ImzML.from_file(path)
+        except Exception as e:
+            return None, {"raises": type(e).__name__, "msg": str(e)[:160]}, None
+        impl, impl_bins = {}, None
+        for key, c in self.call_list(case):
+            op = c["op"]
+            if op in ("extract", "again"):
+                obj, kw, *_ = self.call_args(case, c)
+                r = call(lambda: imz.extract_masses(obj, **kw))
+                impl[key] = r if isinstance(r, dict) else canon_pixels(r)
+            elif op == "load":
+                obj, wobj, *_ = self.call_args(case, c)
+                src = imz if c.get("how") == "object" else path
+                ibdp = path.with_suffix(".ibd")
+                r = call((lambda: M.load(src, ibdp, obj)) if wobj is None else (lambda: M.load(src, ibdp, obj, wobj)))
+                if not isinstance(r, dict):
+                    r = r[0] if isinstance(r, tuple) and len(r) == 2 else {"raises": "load-did-not-return-a-pair"}
+                impl[key] = r if isinstance(r, dict) else canon_pixels(r)
+            elif op == "tic":
+                r = call(imz.extract_tic)
+                impl[key] = r if isinstance(r, dict) else canon_pixels(r)
+            elif op == "range":
+                r = call(imz.mass_range)
+                impl[key] = r if isinstance(r, dict) else [fr(r[0]), fr(r[1])]
+            elif op == "bins":
+                r = call(lambda: imz.binned_masses(c["w"]))
+                if isinstance(r, dict):
+                    impl[key] = r
+                else:
+                    b = np.asarray(r[0], dtype=float)
+                    if b.ndim == 1 and np.all(np.isfinite(b)):
+                        impl_bins = [F(float(v)) for v in b]
+                    impl[key] = {"bins": [fr(v) for v in b.ravel()], "data": canon_pixels(r[1])}
+        dct = self.observe_dict(imz)
+        if dct is not None:
+            impl["dict"] = dct
+        return imz, impl, impl_bins
+
     def evaluate(self, case, ctx):
-        from pewlib.io.imzml import ImzML
         import random
 
         d = ctx.tmpdir()
@@ -528,37 +691,22 @@ class C05(Prop):
         doc = gen_imzml.simple_doc([(s["x"], s["y"]) for s in specs], [s["tic"] for s in specs], metas,
                                    size=case["size"], mzdt=case["mzdt"], itdt=case["itdt"], style=case["style"])
         path = gen_imzml.write_pair(d, doc, ibd)
-        masses, width = case["masses"], case["width"]
-        kw = {"mass_width_ppm": width["value"]} if width["kind"] == "ppm" else {"mass_width_mz": width["value"]}
-        target = masses[0] if case["scalar"] else (np.array(masses) if case["style"] % 2 else list(masses))
+        calls = self.call_list(case)
 
-        impl = {}
-        try:
-            imz = ImzML.from_file(path)
-        except Exception as e:
-            imz = None
-            impl = {"raises": type(e).__name__, "msg": str(e)[:160]}
-        impl_bins = None
-        if imz is not None:
-            r = call(lambda: imz.extract_masses(target, **kw))
-            impl["extract"] = r if isinstance(r, dict) else canon_pixels(r)
-            r = call(imz.extract_tic)
-            impl["tic"] = r if isinstance(r, dict) else canon_pixels(r)
-            r = call(imz.mass_range)
-            impl["range"] = r if isinstance(r, dict) else [fr(r[0]), fr(r[1])]
-            if case["binw"] is not None:
-                r = call(lambda: imz.binned_masses(case["binw"]))
-                if isinstance(r, dict):
-                    impl["binned"] = r
-                else:
-                    b = np.asarray(r[0], dtype=float)
-                    if b.ndim == 1 and np.all(np.isfinite(b)):
-                        impl_bins = [F(float(v)) for v in b]
-                    impl["binned"] = {"bins": [fr(v) for v in b.ravel()], "data": canon_pixels(r[1])}
-            dct = self.observe_dict(imz)
-            if dct is not None:
-                impl["dict"] = dct
+        # both parsers of the public entry point ImzML.from_file: the property speaks of every imzML/ibd pair
+        # imported, not of the default parser; both are judged against the same Lean model and specification
+        obs = {}
+        fast_unjudged = False
+        for name, fast in (("xml", False), ("fast", True)):
+            imz, im, ib = self.observe(case, path, fast)
+            if fast and not specs and imz is None:
+                # a document without any <spectrum>: the fast parser takes the <spectrumList> line for a spectrum and
+                # raises KeyError (DESIGN 9.5, C17: outside the line layout it is written for) - recorded, not judged
+                fast_unjudged = True
+                continue
+            obs[name] = {"ok": imz is not None, "impl": im, "bins": ib}
         reads = self.run_reads(case, path, ibd)
+        impl = {k: v["impl"] for k, v in obs.items()}
         if reads is not None:
             impl["reads"] = reads[0]
 
@@ -567,10 +715,25 @@ class C05(Prop):
         fspecs = [{"x": s["x"], "y": s["y"], "tic": None if s["tic"] is None else core.rat(F(float(s["tic"]))),
                    "mz": [m["mz"][0], m["mz"][1]], "it": [m["it"][0], m["it"][1]]} for s, m in zip(specs, metas)]
         ffile = dict(size=case["size"], ibd=ibd.hex(), mzdt=case["mzdt"], itdt=case["itdt"], spectra=fspecs)
-        rep = ctx.driver.call("c05.image", masses=[core.rat(F(m)) for m in masses],
-                              width={"kind": width["kind"], "value": core.rat(F(width["value"]))}, **ffile)
+
+        # one driver call per extraction of the history; the targets / width are the exact values of what is PASSED
+        # (a float32 array passes float32 values, an int array integers)
+        ext = {}  # key -> {"rep", "mvals", "width", "mt", "wt"}
+        rep = None
+        for key, c in calls:
+            if c["op"] not in ("extract", "again", "load"):
+                continue
+            _, _, mvals, (wkind, wval), mt, wt = self.call_args(case, c)
+            fields = dict(masses=[core.rat(m) for m in mvals], width={"kind": wkind, "value": core.rat(wval)}, **ffile)
+            if key == "extract":
+                rep = ctx.driver.call("c05.image", **fields)
+                r = rep
+            else:
+                r = ctx.driver.call("c05.extract", **fields)
+            ext[key] = {"rep": r, "mvals": mvals, "wkind": wkind, "wval": wval, "mt": mt, "wt": wt}
         hyp = bool(rep["hyp"])
         dspecs = rep["values"]  # the arrays as the model decoded them from the bytes
+        dvals = [([core.unrat(m) for m in s["mz"]], [core.unrat(v) for v in s["it"]]) for s in dspecs]
 
         def mimg(j, vec):
             return {"raises": True} if j is None else drv_table(j["table"], vec)
@@ -578,126 +741,187 @@ class C05(Prop):
         def mrange(j):
             return {"raises": True} if j is None else [("inf", "-inf")[i] if v is None else qs(v) for i, v in enumerate(j)]
 
-        model = {"extract": mimg(rep["extract_model"], True), "tic": mimg(rep["tic_model"], False),
-                 "range": mrange(rep["range_model"]),
+        model = {"tic": mimg(rep["tic_model"], False), "range": mrange(rep["range_model"]),
                  "dict": [[int(s["x"]), int(s["y"]), [qs(v) for v in s["mz"]], [qs(v) for v in s["it"]]] for s in rep["dict"]]}
-        if reads is not None:
-            model["reads"] = reads[1](ctx)
-        spec = {"outside-the-quantifier": True}
+        spec = {}
+        for key, e in ext.items():
+            model[key] = mimg(e["rep"]["extract_model"], True)
+            if hyp:
+                spec[key] = drv_table(e["rep"]["extract_spec"], True)
         if hyp:
-            spec = {"extract": drv_table(rep["extract_spec"], True), "tic": drv_table(rep["tic_spec"], False)}
+            spec["tic"] = drv_table(rep["tic_spec"], False)
             if specs:
                 spec["range"] = [qs(v) for v in rep["range_spec"]]
-        brep = None
+        else:
+            spec = {"outside-the-quantifier": True}
+        if reads is not None:
+            model["reads"] = reads[1](ctx)
+        # binning: the specification is evaluated on the edges the implementation returned (one driver call per
+        # distinct edge list: the two parsers normally return the same one)
+        breps = {}
         if case["binw"] is not None:
-            brep = ctx.driver.call("c05.bins", w=core.rat(F(case["binw"])),
-                                   impl_bins=None if impl_bins is None else [core.rat(v) for v in impl_bins], **ffile)
-            bm = brep["model"]
-            model["binned"] = {"raises": True} if bm is None else {"bins": [qs(v) for v in bm["bins"]], "data": drv_table(bm["table"], True)}
-            if hyp and specs:
-                spec["binned"] = {"edges_step_by_w_and_cover_range": True, "returned_edges_do": bool(brep["cover"]),
-                                  "data": drv_table(brep["spec"], True)}
+            for name, o in obs.items():
+                if not o["ok"]:
+                    continue
+                k = None if o["bins"] is None else tuple(o["bins"])
+                if k not in breps:
+                    breps[k] = ctx.driver.call("c05.bins", w=core.rat(F(case["binw"])),
+                                               impl_bins=None if k is None else [core.rat(v) for v in k], **ffile)
+                o["brep"] = breps[k]
+            brep0 = next(iter(breps.values()), None)
+            if brep0 is not None:
+                bm = brep0["model"]
+                model["binned"] = {"raises": True} if bm is None else {"bins": [qs(v) for v in bm["bins"]],
+                                                                      "data": drv_table(bm["table"], True)}
 
-        # tolerances: exact stream 0; real stream 8*n*eps*total of the pixel
-        totals = {}
-        for s in specs:
-            eps = 2.0 ** -23 if case["itdt"] == "f4" else 2.0 ** -52
-            totals[(s["y"] - 1, s["x"] - 1)] = F(8 * max(1, len(s["it"])) * eps * sum(s["it"])) if case["kind"] == "real" else F(0)
-        big = max(totals.values(), default=F(0))
+        # ---- tolerances.  Exact stream: 0 wherever the float sum is the exact sum for ANY order of summation (one
+        # value, or integers whose absolute values add up to less than 2^24 / 2^53); a window (pixel total) that is
+        # not summable exactly in the intensity type — a dominant peak inside it next to small ones — is
+        # rounding-determined for every implementation: 8*n*eps*sum|it|.  Real stream: 8*n*eps*total of the pixel.
+        p_it = 24 if case["itdt"] == "f4" else 53
+        eps = 2.0 ** (1 - p_it)
+
+        def sum_tol(vals):
+            if len(vals) <= 1:
+                return F(0)
+            tot = sum(abs(v) for v in vals)
+            if all(v.denominator == 1 for v in vals) and tot < 2 ** p_it:
+                return F(0)
+            return F(8 * len(vals) * eps) * tot
+
+        real = case["kind"] == "real"
+        pix_tol = []  # per <spectrum>: tolerance of sums over the whole spectrum (TIC, bins)
+        for mz, it in dvals:
+            pix_tol.append(F(8 * max(1, len(it)) * eps) * sum(abs(v) for v in it) if real else sum_tol(it))
+
+        def extract_tols(e):
+            """per <spectrum> a list over the windows: tolerance, or None where a peak lies within the guard of an edge
+            whose float value depends on how the code rounds (undetermined element)"""
+            edges = [core.unrat(q) for q in e["rep"]["edges"]]
+            wins = list(zip(edges[::2], edges[1::2]))
+            g = edge_guard(real, e["wkind"], e["mvals"], e["wval"], e["mt"], e["wt"], edges)
+            out, hit = [], False
+            for si, (mz, it) in enumerate(dvals):
+                row = []
+                for lo, hi in wins:
+                    if g is not None and any(abs(q - b) <= g * abs(b) for q in mz for b in (lo, hi)):
+                        row.append(None)
+                        hit = True
+                        continue
+                    row.append(pix_tol[si] if real else sum_tol([v for q, v in zip(mz, it) if lo <= q < hi]))
+                out.append(row)
+            return out, hit
+
         # outside the quantifier two dict values can be written to one pixel (positions 0 and X): which one stays depends
         # on the order of the loop, which the property does not fix: only the NaN-ness of such a pixel is compared
         ali = rep["aliased"] or []
         is_ali = lambda r, c: r < len(ali) and c < len(ali[r]) and bool(ali[r][c])
-        tol = (lambda r, c: totals.get((r, c), F(0))) if hyp else (lambda r, c: None if is_ali(r, c) else big)
-        # the summed TIC of a pixel whose exact total is not representable in the intensity type is rounding-determined
-        # for ANY implementation (a dominant peak next to small ones): tolerance for the TIC table only
-        tic_totals = dict(totals)
-        for s in specs:
-            lim = 2 ** 24 if case["itdt"] == "f4" else 2 ** 53
-            if s["tic"] is None and sum(s["it"]) >= lim:
-                eps = 2.0 ** -23 if case["itdt"] == "f4" else 2.0 ** -52
-                tic_totals[(s["y"] - 1, s["x"] - 1)] = F(8 * max(1, len(s["it"])) * eps * sum(s["it"]))
-        bigt = max(tic_totals.values(), default=F(0))
-        tol_tic = (lambda r, c: tic_totals.get((r, c), F(0))) if hyp else (lambda r, c: None if is_ali(r, c) else bigt)
-        parts_spec, parts_model = {}, {}
-        if imz is None:
-            parts_spec["parse"] = parts_model["parse"] = False
-        else:
-            for k in ("extract", "tic"):
-                t = tol if k == "extract" else tol_tic
+        where = {(s["y"] - 1, s["x"] - 1): i for i, s in enumerate(specs)}
+
+        def by_pixel(per_spec, default):
+            """tolerance function of a table: in the quantifier the pixel's own spectrum decides; outside it (positions
+            wrap, repeat, alias) the loosest tolerance of the file for every pixel, nothing where one is undetermined"""
+            if hyp:
+                return lambda r, c: per_spec[where[(r, c)]] if (r, c) in where else default
+            flat = [t for v in per_spec for t in (v if isinstance(v, list) else [v])]
+            loose = None if any(t is None for t in flat) else max(flat, default=F(0))
+            return lambda r, c: None if is_ali(r, c) else loose
+
+        tic_tol = by_pixel([F(0) if s["tic"] is not None else pix_tol[i] for i, s in enumerate(specs)], F(0))
+        bin_tol = by_pixel(pix_tol, F(0))
+        undet_keys = []
+        for key, e in ext.items():
+            tv, hit = extract_tols(e)
+            e["tol"] = by_pixel(tv, F(0))
+            if hit:
+                undet_keys.append(key)
+
+        parts_spec, parts_model, bnotes = {}, {}, {}
+        for name, o in obs.items():
+            P = lambda k: f"{name}:{k}"
+            im = o["impl"]
+            if not o["ok"]:
+                parts_spec[P("parse")] = parts_model[P("parse")] = False
+                continue
+            for key, e in ext.items():
                 if hyp:
-                    parts_spec[k] = tables_close(impl[k], spec[k], t)
-                parts_model[k] = both_raise(impl[k], model[k]) or tables_close(impl[k], model[k], t)
-            ir = impl["range"]
-            if hyp and specs:
-                ok = isinstance(ir, list) and None not in ir
-                parts_spec["range"] = ok and self.le(ir[0], spec["range"][0]) and self.le(spec["range"][1], ir[1])
-            parts_model["range"] = both_raise(ir, model["range"]) or ir == model["range"]
-            if brep is not None:
-                ib, mb = impl["binned"], model["binned"]
+                    parts_spec[P(key)] = tables_close(im[key], spec[key], e["tol"])
+                parts_model[P(key)] = both_raise(im[key], model[key]) or tables_close(im[key], model[key], e["tol"])
+            for key, c in calls:
+                if c["op"] == "tic":
+                    if hyp:
+                        parts_spec[P(key)] = tables_close(im[key], spec["tic"], tic_tol)
+                    parts_model[P(key)] = both_raise(im[key], model["tic"]) or tables_close(im[key], model["tic"], tic_tol)
+                elif c["op"] == "range":
+                    ir = im[key]
+                    if hyp and specs:
+                        ok = isinstance(ir, list) and None not in ir
+                        parts_spec[P(key)] = ok and self.le(ir[0], spec["range"][0]) and self.le(spec["range"][1], ir[1])
+                    parts_model[P(key)] = both_raise(ir, model["range"]) or ir == model["range"]
+            if case["binw"] is not None:
+                brep = o["brep"]
+                bm = brep["model"]
+                mb = {"raises": True} if bm is None else {"bins": [qs(v) for v in bm["bins"]], "data": drv_table(bm["table"], True)}
+                ib = im["binned"]
                 if hyp and specs:
-                    parts_spec["binned"] = "data" in ib and bool(brep["cover"]) and tables_close(ib["data"], spec["binned"]["data"], tol)
-                    parts_model["binned"] = "data" in ib and "data" in mb and ib["bins"] == mb["bins"] \
-                        and self.binned_matches_model(ib["data"], mb["data"], spec["binned"]["data"], brep["dense"], tol)
+                    sdata = drv_table(brep["spec"], True)
+                    ok = "data" in ib and bool(brep["cover"]) and tables_close(ib["data"], sdata, bin_tol)
+                    parts_spec[P("binned")] = ok
+                    parts_model[P("binned")] = "data" in ib and "data" in mb and ib["bins"] == mb["bins"] \
+                        and self.binned_matches_model(ib["data"], mb["data"], sdata, brep["dense"], bin_tol)
+                    spec.setdefault("binned", {"edges_step_by_w_and_cover_range": True, "returned_edges_do": bool(brep["cover"]),
+                                               "data": sdata})
+                    if "data" in ib and not ok:
+                        # which disagreeing pixels lie in the class of the known finding (a bin without a peak / bins
+                        # above the last peak)
+                        bad_dense = 0
+                        idata = ib["data"]
+                        same_shape = len(idata) == len(sdata) and all(len(a) == len(b) for a, b in zip(idata, sdata))
+                        if same_shape:
+                            for r, row in enumerate(idata):
+                                for c_, px in enumerate(row):
+                                    if not tables_close([[px]], [[sdata[r][c_]]], lambda *_: bin_tol(r, c_)) \
+                                            and brep["dense"][r][c_] is not False:
+                                        bad_dense += 1
+                        bnotes[name] = {"cover": bool(brep["cover"]), "same_shape": same_shape, "bad_dense_pixels": bad_dense,
+                                        "matches_defect_model": "data" in mb and ib["bins"] == mb["bins"]
+                                        and tables_close(ib["data"], mb["data"], bin_tol)}
                 else:
                     # outside the quantifier (and for a file without spectra) only raising, the edges, the shape and the
                     # NaN pattern are compared: the values of binned_masses are covered by the known finding, a repair
                     # of it must not break the tie here
-                    parts_model["binned"] = both_raise(ib, mb) or ("data" in ib and "data" in mb and ib["bins"] == mb["bins"]
-                                                                  and same_pattern(ib["data"], mb["data"]))
-            if "dict" in impl:
-                parts_model["dict"] = impl["dict"] == model["dict"]
+                    parts_model[P("binned")] = both_raise(ib, mb) or ("data" in ib and "data" in mb and ib["bins"] == mb["bins"]
+                                                                     and same_pattern(ib["data"], mb["data"]))
+            if "dict" in im:
+                parts_model[P("dict")] = im["dict"] == model["dict"]
         if reads is not None:
             inq = [r["off"] + r["len"] <= len(ibd) and r["len"] % int(r["dt"][1:]) == 0 for r in case["reads"]]
             pairs = list(zip(inq, impl["reads"], model["reads"]))
             parts_model["reads"] = all(i == m for q, i, m in pairs if q)          # arrays inside the file: always
             parts_model["reads-off"] = all(i == m for q, i, m in pairs if not q)  # short / misaligned reads: off-domain
 
-        # undetermined: a peak within 1e-9 relative of a window edge whose float value depends on how the code
-        # rounds (real stream; every ppm width: m*ppm/1e6/2 and e.g. m*(ppm*5e-7) are both right but round differently)
-        undet = False
-        edges = [core.unrat(e) for e in rep["edges"]]
-        guard = case["kind"] == "real" or width["kind"] == "ppm"
-        if not guard:
-            # absolute width: the float64 expressions m - w/2, m + w/2 are exact for the dyadic classes; where they
-            # round (decimal masses / widths) the same guard applies, whatever stream the case came from
-            h = float(width["value"]) / 2.0
-            fl = [F(v) for m in masses for v in (float(m) - h, float(m) + h)]
-            guard = fl != edges
-        if guard:
-            for s in dspecs:
-                for m in s["mz"]:
-                    q = core.unrat(m)
-                    if any(abs(q - e) <= F(1, 10 ** 9) * abs(e) for e in edges):
-                        undet = True
-
         note = {"fail": sorted(k for k, v in parts_spec.items() if not v),
                 "model_fail": sorted(k for k, v in parts_model.items() if not v)}
-        if brep is not None and imz is not None and "data" in impl.get("binned", {}) and not parts_spec.get("binned", True):
-            # which disagreeing pixels lie in the class of the known finding (a bin without a peak / bins above the last peak)
-            bad_dense = 0
-            ib = impl["binned"]
-            idata, sdata = ib["data"], spec["binned"]["data"]
-            same_shape = len(idata) == len(sdata) and all(len(a) == len(b) for a, b in zip(idata, sdata))
-            if same_shape:
-                for r, row in enumerate(idata):
-                    for c, px in enumerate(row):
-                        if not tables_close([[px]], [[sdata[r][c]]], lambda *_: tol(r, c)) and brep["dense"][r][c] is not False:
-                            bad_dense += 1
-            mb = model["binned"]
-            note["binned"] = {"cover": bool(brep["cover"]), "same_shape": same_shape, "bad_dense_pixels": bad_dense,
-                              "matches_defect_model": "data" in mb and ib["bins"] == mb["bins"]
-                              and tables_close(ib["data"], mb["data"], tol)}
-        feats = self.features(case, rep, brep, dspecs, hyp, reads is not None, "dict" in impl)
+        if bnotes:
+            note["binned"] = bnotes
+        brep_f = next((o.get("brep") for o in obs.values() if o.get("brep") is not None), None)
+        feats = self.features(case, rep, brep_f, dspecs, hyp, reads is not None,
+                              any("dict" in (o["impl"] or {}) for o in obs.values() if o["ok"]), ext, calls, dvals)
+        if fast_unjudged and feats:
+            feats = list(feats) + ["fast-parser:no-spectrum-document-raises (recorded only)"]
+        if undet_keys and feats:
+            feats = list(feats) + ["undetermined-element:peak-within-guard-of-inexact-edge"]
         if not self.OFF_DOMAIN_VERDICT:
             # disagreements outside the quantifier are only counted (feature), they do not reach the verdict
-            offp = [k for k in parts_model if k == "reads-off" or (not hyp and k not in ("reads", "parse"))]
+            offp = [k for k in parts_model if k == "reads-off" or (not hyp and k not in ("reads", "xml:parse", "fast:parse"))]
             if any(not parts_model[k] for k in offp) and feats:
                 feats = list(feats) + ["off:DIFFERS-from-model"]
             for k in offp:
                 parts_model[k] = True
+        # a case in which EVERY extraction has an undetermined element is counted as undetermined as before when nothing
+        # else of it fails; the elements themselves are never compared (tolerance None) whatever the flag says
         return outcome(impl, model, spec, spec_ok=all(parts_spec.values()), model_ok=all(parts_model.values()),
-                       undetermined=undet, hyp=hyp, features=feats, note=json.dumps(note, sort_keys=True))
+                       undetermined=False, hyp=hyp, features=feats, note=json.dumps(note, sort_keys=True))
 
     # ------------------------------------------------------------------ the external binary, directly
     @staticmethod
@@ -786,17 +1010,18 @@ class C05(Prop):
             return inf.get(a, 0) <= inf.get(b, 0) if (a in inf and b in inf) else (a == "-inf" or b == "inf")
         return F(a) <= F(b)
 
-    def features(self, case, rep, brep, dspecs, hyp, did_reads, did_dict):
+    def features(self, case, rep, brep, dspecs, hyp, did_reads, did_dict, ext, calls, dvals):
         f = set()
         specs = case["spectra"]
-        edges = [core.unrat(e) for e in rep["edges"]]
-        wins = list(zip(edges[::2], edges[1::2]))
         off = set()
+        X = Y = None
         if rep["extract_model"] is None:
             off.add("off:model-raises")
         else:
             Y, X = rep["extract_model"]["shape"]
             f.add(f"img:{'1x1' if (X, Y) == (1, 1) else 'line' if 1 in (X, Y) else 'grid'}")
+            if max(X, Y) >= 5:
+                f.add("img:long-side>=5")
             if len(specs) < X * Y:
                 f.add("sparse-pixels")
             if 0 in (X, Y):
@@ -835,59 +1060,136 @@ class C05(Prop):
             f.add("size-absent")
         if case["shared"] and len(specs) > 1:
             f.add("shared-axis")
-        f.add(f"mz:{case['mzdt']}")
-        f.add(f"it:{case['itdt']}")
-        f.add(f"width:{case['width']['kind']}")
+        f.add(f"mz:{case['mzdt']}+it:{case['itdt']}")
         f.add(f"stream:{case['kind']}")
-        if any(s["tic"] is None for s in specs):
-            f.add("tic-absent")
-        if any(s["tic"] is not None for s in specs):
-            f.add("tic-stored")
-        if case["scalar"]:
-            f.add("scalar-target")
-        los = [w[0] for w in wins]
-        if los != sorted(los):
-            f.add("windows-unsorted")
-        if any(a[0] < b[1] and b[0] < a[1] for i, a in enumerate(wins) for b in wins[i + 1:]):
-            f.add("windows-overlap")
         nontriv = set()
-        # 32-bit m/z next to a window edge that is not a float32 value: the stored neighbours of the edge
-        brackets = []
-        if case["mzdt"] == "f4":
-            brackets = [(f32_bracket(lo), f32_bracket(hi)) for lo, hi in wins]
-            if any(b is not None for pair in brackets for b in pair):
-                f.add("f32-unrepresentable-edge")
-        for s in dspecs:
-            mz = [core.unrat(m) for m in s["mz"]]
-            mzset = set(mz)
-            for pair in brackets:
-                for name, b in zip(("lower", "upper"), pair):
-                    if b is not None:
-                        if b[0] in mzset:
-                            nontriv.add(f"f32-peak-just-below-{name}-edge")
-                        if b[1] in mzset:
-                            nontriv.add(f"f32-peak-just-above-{name}-edge")
-            f.add("n1" if len(mz) == 1 else "n2" if len(mz) == 2 else "n>2")
-            for lo, hi in wins:
-                inside = [m for m in mz if lo <= m < hi]
-                if lo in mz:
-                    nontriv.add("peak-on-lower-edge")
-                if hi in mz:
-                    nontriv.add("peak-on-upper-edge")
-                if not inside:
-                    if hi <= mz[0]:
-                        nontriv.add("window-below")
-                    elif lo > mz[-1]:
-                        nontriv.add("window-above")
+        # ---- stored / absent TIC in file order (a parser or image method that carries state from one <spectrum> to the
+        # next shows only when presence CHANGES along the file)
+        pres = [s["tic"] is not None for s in specs]
+        if any(not p for p in pres):
+            f.add("tic-absent")
+        if any(pres):
+            f.add("tic-stored")
+        changes = [(a, b) for a, b in zip(pres, pres[1:]) if a != b]
+        if (True, False) in changes:
+            nontriv.add("tic-mixed:stored-then-absent")
+        if (False, True) in changes:
+            nontriv.add("tic-mixed:absent-then-stored")
+        if len(changes) >= 2:
+            nontriv.add("tic-mixed:alternating")
+        # ---- pixel coverage
+        if hyp and X and Y and specs:
+            pos = {(s["x"], s["y"]) for s in specs}
+            if X * Y > 1:
+                if (1, 1) not in pos:
+                    nontriv.add("pixel:first-missing")
+                if (X, Y) not in pos:
+                    nontriv.add("pixel:last-missing")
+                if len(pos) == 1:
+                    nontriv.add("pixel:single-recorded")
+        # ---- the history
+        ops = [c["op"] for _, c in calls]
+        nat = [k for k, _ in calls]
+        if case.get("order") is not None and nat[:3] != ["extract", "tic", "range"]:
+            f.add("history:reordered")
+            if nat.index("tic") < nat.index("extract"):
+                f.add("history:extraction-after-tic")
+        if sum(o in ("extract", "again", "load") for o in ops) >= 2:
+            nontriv.add("history:several-extractions-one-object")
+        if "again" in ops:
+            f.add("history:same-extraction-twice")
+        for _, c in calls:
+            if c["op"] == "load":
+                f.add("history:load-" + ("object" if c.get("how") == "object" else "path") + ("-default-ppm" if c.get("ppm") is None else ""))
+        if ops.count("tic") > 1 or ops.count("range") > 1:
+            f.add("history:tic-or-range-twice")
+        # ---- per extraction: argument types and window classes
+        for key, e in ext.items():
+            edges = [core.unrat(q) for q in e["rep"]["edges"]]
+            wins = list(zip(edges[::2], edges[1::2]))
+            mt, wt = e["mt"], e["wt"]
+            f.add(f"targ:{mt}")
+            f.add(f"wtype:{wt}")
+            f.add(f"width:{e['wkind']}")
+            if mt in INT_MT or mt == "list-mixed":
+                nontriv.add(f"int-targets+{'abs' if e['wkind'] == 'mz' else 'ppm'}-width")
+            if mt in F4_MT or wt == "np-f4":
+                nontriv.add("float32-targets-or-width")
+            if mt in SCALAR_MT:
+                f.add("scalar-target")
+            if len(wins) >= 100:
+                nontriv.add("targets:>=100")
+            mv = e["mvals"]
+            if len(set(mv)) < len(mv):
+                nontriv.add("targets:duplicate")
+            if mv and max(mv) < 16:
+                f.add("targets:mass<16")
+            if mv and max(mv) >= 2048:
+                f.add("targets:mass>=2048")
+            los = [w[0] for w in wins]
+            if los != sorted(los):
+                f.add("windows-unsorted")
+            small = wins[:40]
+            if any(a[0] < b[1] and b[0] < a[1] for i, a in enumerate(small) for b in small[i + 1:]):
+                f.add("windows-overlap")
+            shared_edges = {a[1] for a in wins if a[0] < a[1]} & {b[0] for b in wins if b[0] < b[1]}
+            if shared_edges:
+                nontriv.add("windows-adjacent")
+            # 32-bit m/z next to a window edge that is not a float32 value: the stored neighbours of the edge
+            brackets = []
+            if case["mzdt"] == "f4" and len(wins) <= 12:
+                brackets = [(f32_bracket(lo), f32_bracket(hi)) for lo, hi in wins]
+                if any(b is not None for pair in brackets for b in pair):
+                    f.add("f32-unrepresentable-edge")
+            p_it = 24 if case["itdt"] == "f4" else 53
+            for mz, it in dvals:
+                mzset = set(mz)
+                if not mz:
+                    continue
+                for pair in brackets:
+                    for name, b in zip(("lower", "upper"), pair):
+                        if b is not None:
+                            if b[0] in mzset:
+                                nontriv.add(f"f32-peak-just-below-{name}-edge")
+                            if b[1] in mzset:
+                                nontriv.add(f"f32-peak-just-above-{name}-edge")
+                f.add("n1" if len(mz) == 1 else "n2" if len(mz) == 2 else "n>2")
+                if shared_edges & mzset:
+                    nontriv.add("peak-on-shared-edge-of-adjacent-windows")
+                # peaks that dominate a non-empty window they are NOT in by more than the precision of the intensity
+                # type (2^24 / 2^53): any arithmetic that lets them meet the window's content (running totals) loses it
+                doms = [(q, abs(v)) for q, v in zip(mz, it) if abs(v) >= 2 ** p_it]
+                below_of, above_of = set(), set()
+                for lo, hi in wins[:60]:
+                    inside = [m for m in mz if lo <= m < hi]
+                    if lo in mzset:
+                        nontriv.add("peak-on-lower-edge")
+                    if hi in mzset:
+                        nontriv.add("peak-on-upper-edge")
+                    if not inside:
+                        if hi <= mz[0]:
+                            nontriv.add("window-below")
+                        elif lo > mz[-1]:
+                            nontriv.add("window-above")
+                        else:
+                            nontriv.add("window-empty-inside")
                     else:
-                        nontriv.add("window-empty-inside")
-                else:
-                    if len(inside) > 1:
-                        nontriv.add("window-many-peaks")
-                    if inside[0] == mz[0]:
-                        nontriv.add("window-has-first-peak")
-                    if inside[-1] == mz[-1]:
-                        nontriv.add("window-has-last-peak")
+                        if len(inside) > 1:
+                            nontriv.add("window-many-peaks")
+                        if inside[0] == mz[0]:
+                            nontriv.add("window-has-first-peak")
+                        if inside[-1] == mz[-1]:
+                            nontriv.add("window-has-last-peak")
+                        if len(inside) == len(mz) and len(mz) > 1:
+                            nontriv.add("window-has-every-peak")
+                        content = sum(abs(v) for q, v in zip(mz, it) if lo <= q < hi)
+                        if content > 0:
+                            for q, v in doms:
+                                if v >= content * 2 ** p_it and not (lo <= q < hi):
+                                    (below_of if q < lo else above_of).add(q)
+                                    nontriv.add(f"dominant-{'f32' if p_it == 24 else 'f64'}-peak-{'below' if q < lo else 'above'}-nonempty-window")
+                if below_of & above_of:
+                    nontriv.add(f"dominant-{'f32' if p_it == 24 else 'f64'}-peak-between-nonempty-windows")
         if brep is not None and hyp and brep["dense"] is not None and brep["model"] is not None:
             flat = [d for row in brep["dense"] for d in row if d is not None]
             if any(flat):
@@ -906,15 +1208,18 @@ class C05(Prop):
             note = json.loads(out.get("note") or "{}")
         except ValueError:
             return None
-        if note.get("fail") != ["binned"]:
+        fail = note.get("fail") or []
+        if not fail or any(k.split(":")[-1] != "binned" for k in fail):
             return None  # anything else that fails is a violation
-        b = note.get("binned")
-        if not b or not b["cover"] or not b["same_shape"]:
-            return None
-        if b["bad_dense_pixels"] != 0:
-            return None  # a pixel whose every bin holds a peak must be right
-        if not b["matches_defect_model"]:
-            return None  # not the documented behaviour (neighbouring peak / repeated last intensity)
+        notes = note.get("binned") or {}
+        for k in fail:  # every parser through which binned_masses fails must show exactly the documented behaviour
+            b = notes.get(k.split(":")[0])
+            if not b or not b["cover"] or not b["same_shape"]:
+                return None
+            if b["bad_dense_pixels"] != 0:
+                return None  # a pixel whose every bin holds a peak must be right
+            if not b["matches_defect_model"]:
+                return None  # not the documented behaviour (neighbouring peak / repeated last intensity)
         return KNOWN_BINS
 
     # ------------------------------------------------------------------ shrinking
